@@ -8,7 +8,7 @@ ALLOWED_AXIOMS = {"Classical_Prop.classic", "ClassicalDedekindReals.sig_not_dec"
                   "ClassicalDedekindReals.sig_forall_dec",
                   "FunctionalExtensionality.functional_extensionality_dep"}
 MANIFEST = {
-    "text": 'Coq theorems over the broker model: actuate either fails without any effect or delivers exactly one request, value unchanged, to the registered, available, unexpired provider that claimed the id after all checks passed; batch_actuate forwards nothing unless every element passes every check and every addressed actuator has a live owner, and then forwards a permutation of the requested changes; stored values are never altered. Tied to the code by histories with several recording providers, duplicates, unknown ids, sensors, invalid values, partial permissions, provider loss and expiry, comparing every provider inbox after every operation; an all-or-nothing / exactly-once / right-owner monitor judges the implementation.',
+    "text": 'Coq theorems over the broker model: actuate either fails without any effect or delivers exactly one request, value unchanged, to the registered, available, unexpired provider that claimed the id after all checks passed; batch_actuate forwards nothing unless every element passes every check and every addressed actuator has a live owner, and then forwards a permutation of the requested changes; stored values are never altered. Tied to the code by histories with several recording providers, duplicates, unknown ids, sensors, invalid values, partial permissions, provider loss and expiry, comparing every provider inbox after every operation, plus scripted routing scenarios (2-3 providers with disjoint actuator sets, one lost and not yet removed by housekeeping, batches naming live / lost / unowned actuators, a sensor, unknown ids and ill-typed values in every position); an all-or-nothing / exactly-once / right-owner monitor judges the implementation.',
     "note": "Trusted: Coq kernel; the 4 standard-library axioms that enter through Flocq (used by validate's float comparisons) as printed by Print Assumptions; extraction + OCaml driver (vm_compute cross-check each run); harness/src/fam_hist.rs and hook H3 (verif_housekeeping_step); the Python monitors. Modelled, not verified: tokio broadcast (ring with capacity rounded up to a power of two, Lagged skipping) and RwLock, HashMap iteration order (outputs are sorted), the gRPC handlers on top of AuthorizedAccess (exercised by the handler-level checks), SystemTime (a timestamp is canonicalised to the operation during which it was taken; expiry is crossed in real time at a TICK).",
 }
 PROPS = set("C09,C02".split(","))
@@ -18,8 +18,86 @@ TRUSTED = B.TRUSTED
 ASSUMPTIONS = B.ASSUMPTIONS
 
 
+def routing_scenario(rng):
+    """several providers with disjoint actuator sets, one of which is lost (stream dropped or token expired) and
+    not yet removed by housekeeping; batches that name live, lost and unowned actuators, sensors, unknown ids and
+    ill-typed values in every position"""
+    from .. import enc as E
+    L = [[H.PERM, 0] + E.s(H.ALL_SCOPE), [H.PERM, 1] + E.s(H.ALL_SCOPE), [H.PERM, 0] + E.s(H.ALL_SCOPE),
+         [H.PERM, 0] + E.s("actuate:Vehicle.Act0 actuate:Vehicle.Act1 actuate:Vehicle.Act2 read")]
+    n = rng.randrange(4, 8)
+    for i in range(n):
+        L.append([H.ADD, 0] + E.s("Vehicle.Act%d" % i) + [4, rng.randrange(3), 2, 0, 0, 0])
+    L.append([H.ADD, 0] + E.s("Vehicle.Sensor") + [4, 1, 0, 0, 0, 0])
+    sensor = n
+    ids = list(range(n))
+    rng.shuffle(ids)
+    k = rng.randrange(1, n - 1)
+    own = {0: sorted(ids[:k]), 1: sorted(ids[k:n - 1])}       # provider handle 0 (principal 0), 1 (principal 1, expiring)
+    unowned = ids[n - 1:]
+    third = rng.random() < 0.5 and len(own[0]) > 1
+    if third:
+        own[2] = [own[0].pop()]
+    order = sorted(own)
+    prov_p = {0: 0, 1: 1, 2: 2}
+    for h in order:
+        L.append([H.PROVIDE, prov_p[h], len(own[h])] + own[h])
+    L.append([H.DUMP])
+    act = lambda p, i, v=None: [H.ACTUATE, p, i] + (v or [E.I32, rng.randrange(100)])
+    batch = lambda p, xs: [H.BATCH, p, len(xs)] + sum(([i] + (v or [E.I32, rng.randrange(100)]) for i, v in xs), [])
+    ok = lambda i: (i, None)
+    bad_value = lambda i: (i, rng.choice([E.val(E.STR, "x"), E.val(E.I64, 2**40), [0], E.val(E.BOOL, True)]))
+    caller = lambda: rng.choice([0, 0, 2, 3])
+
+    def some_batches(lost):
+        out = []
+        for _ in range(rng.randrange(2, 6)):
+            live = [i for h in own if h not in lost for i in own[h]]
+            dead = [i for h in lost for i in own[h]]
+            parts = []
+            parts += [ok(i) for i in rng.sample(live, min(len(live), rng.randrange(0, 3)))]
+            c = rng.random()
+            if dead and c < 0.6:
+                parts.append(ok(rng.choice(dead)))
+            elif c < 0.7:
+                parts.append(ok(rng.choice(unowned)))
+            elif c < 0.8:
+                parts.append(ok(sensor))
+            elif c < 0.87:
+                parts.append(ok(n + 5))
+            elif c < 0.95 and live:
+                parts.append(bad_value(rng.choice(live)))
+            if rng.random() < 0.3 and live:
+                parts.append(ok(rng.choice(live)))          # possibly a duplicate id
+            rng.shuffle(parts)
+            if not parts:
+                continue
+            out += [batch(caller(), parts), [H.DUMP]]
+            if rng.random() < 0.4:
+                out += [act(caller(), rng.choice(live + dead + unowned + [sensor])), [H.DUMP]]
+        return out
+
+    L += some_batches(set())
+    lost = set()
+    if rng.random() < 0.5:
+        L.append([H.TICK])
+        lost.add(1)
+    else:
+        h = rng.choice(order)
+        L.append([H.PROVDOWN, h])
+        lost.add(h)
+    L += some_batches(lost)
+    L += [[H.CLEANUP], [H.DUMP]]
+    for h in lost:
+        del own[h]
+    L += some_batches(set())
+    return L
+
+
 def generate(rng, tier, n=None, **kw):
-    return B.generate(rng, tier, weights=WEIGHTS, n=n, **GEN_KW)
+    cases = B.generate(rng, tier, weights=WEIGHTS, n=n, **GEN_KW)
+    k = 60 if tier == "quick" else 1200
+    return cases + [("route%d" % i, routing_scenario(rng)) for i in range(k)]
 
 
 GEN_KW = {}
